@@ -1753,10 +1753,9 @@ impl Ty {
                 ) && found_sub_ty.might_be_weak()
                     && found_sub_ty.is_weak_replaceable_by(expected_sub_ty)
             }
-            // todo: is this correct?
-            (Ty::ConcreteStruct { .. } | Ty::AnonStruct { .. }, Ty::ConcreteStruct { .. }) => {
-                self.can_fit_into(expected)
-            }
+            // only an anonymous struct literal is weak: a value that already has a concrete struct
+            // type keeps it (otherwise `D.(s)` with `D :: distinct S` would retype the variable `s`)
+            (Ty::AnonStruct { .. }, Ty::ConcreteStruct { .. }) => self.can_fit_into(expected),
             (found, Ty::Distinct { sub_ty: ty, .. }) => found.is_weak_replaceable_by(ty),
             (
                 Ty::Optional {
